@@ -310,10 +310,30 @@ func (n *normaliser) usesOf(fd *ast.FuncDecl, def localDef, obj *types.Var) ([]*
 				if id, isID := astx.Unparen(l).(*ast.Ident); isID && id != def.id && (n.info.Uses[id] == obj || n.info.Defs[id] == obj) {
 					ok = false
 				}
+				// written through: `copy.Field = …`, `copy[i] = …` change the local (a copy when it holds a
+				// struct or array), not what its defining expression reads
+				if _, isID := astx.Unparen(l).(*ast.Ident); !isID && rootVar(n.info, l) == types.Object(obj) {
+					ok = false
+				}
 			}
 		case *ast.IncDecStmt:
-			if id, isID := astx.Unparen(x.X).(*ast.Ident); isID && n.info.Uses[id] == obj {
+			if rootVar(n.info, x.X) == types.Object(obj) {
 				ok = false
+			}
+		case *ast.CallExpr:
+			// a pointer-receiver method called on a struct/array local takes its address
+			if sel, isSel := x.Fun.(*ast.SelectorExpr); isSel {
+				if id, isID := astx.Unparen(sel.X).(*ast.Ident); isID && n.info.Uses[id] == obj {
+					if f, isF := n.info.Uses[sel.Sel].(*types.Func); isF {
+						if sig, _ := f.Type().(*types.Signature); sig != nil && sig.Recv() != nil {
+							_, recvPtr := sig.Recv().Type().(*types.Pointer)
+							_, objPtr := obj.Type().Underlying().(*types.Pointer)
+							if recvPtr && !objPtr {
+								ok = false
+							}
+						}
+					}
+				}
 			}
 		case *ast.UnaryExpr:
 			if id, isID := astx.Unparen(x.X).(*ast.Ident); isID && x.Op == token.AND && n.info.Uses[id] == obj {
@@ -339,6 +359,28 @@ func (n *normaliser) usesOf(fd *ast.FuncDecl, def localDef, obj *types.Var) ([]*
 	}
 	ast.Inspect(fd.Body, visit)
 	return uses, ok
+}
+
+// rootVar returns the variable at the root of a selector / index / dereference chain.
+func rootVar(info *types.Info, e ast.Expr) types.Object {
+	for {
+		switch x := e.(type) {
+		case *ast.ParenExpr:
+			e = x.X
+		case *ast.SelectorExpr:
+			e = x.X
+		case *ast.IndexExpr:
+			e = x.X
+		case *ast.StarExpr:
+			e = x.X
+		case *ast.SliceExpr:
+			e = x.X
+		case *ast.Ident:
+			return info.Uses[x]
+		default:
+			return nil
+		}
+	}
 }
 
 // stable checks that nothing the defining expression reads is written between the definition and
